@@ -296,9 +296,17 @@ fn for_each_doc(depth: usize, reduced: bool, f: &mut dyn FnMut(Value)) {
             let mut next = leaves.clone();
             for_each_container(&elems, &mut |v| next.push(v));
             if reduced {
-                // a covering subset: every leaf, and one document per container shape
+                // a covering subset: every leaf, one document per container shape, thinned to at most
+                // 40 containers (evenly spaced) so that the next level stays enumerable
                 let mut seen = std::collections::HashSet::new();
                 next.retain(|x| !(x.is_array() || x.is_object()) || seen.insert(shape_of(x)));
+                let containers: Vec<Value> = next.iter().filter(|x| x.is_array() || x.is_object()).cloned().collect();
+                if containers.len() > 40 {
+                    let step = containers.len() / 40 + 1;
+                    let keep: Vec<Value> = containers.into_iter().step_by(step).collect();
+                    next.retain(|x| !(x.is_array() || x.is_object()));
+                    next.extend(keep);
+                }
             }
             elems = next;
         }
@@ -379,6 +387,11 @@ pub fn worker(w: &mut Worker) {
             let nt = d.is_array() || d.is_object();
             run!(json!({"kind": "json", "doc": d.to_string()}), nt, ("json", shape_of(&d).len().min(12), d.is_array()), json_roundtrip(&mut s, &d));
         };
+        if tier == Tier::Thorough {
+            // everything the quick tier covers (all documents of depth 2) ...
+            for_each_doc(2, false, &mut body);
+        }
+        // ... and, for thorough, depth 3 over a covering subset of the depth-2 shapes
         for_each_doc(depth, reduced, &mut body);
         // number leaves: alone, in an array, as an object member
         let nums = json_number_leaves();
